@@ -63,11 +63,14 @@ def flat(v):
 
 NEEDS = {"dut": ["u", "t", "f"], "u_f": ["u", "f"], "u_g": ["u", "g"], "echo": ["u", "t", "f", "g"], "vec": ["u", "f", "t"],
          "int": ["u", "u_integral", "g"], "intvec": ["u", "u_integral", "x", "t"], "intx": ["u", "u_integral", "x_integral"],
+         "intdx": ["u", "u_integral", "x_integral"], "intdt": ["u", "u_integral", "t"],
          "ritz": ["u", "g"], "pen": ["kappa"], "ut1": ["u", "t"]}
 BODY = {"dut": "_grad(u, t) - f", "u_f": "u - f", "u_g": "u - g", "echo": "2 * u + 3 * t + 5 * f + 7 * g", "vec": "_torch.cat([u - f, u + t], dim=-1)",
         "int": "u - _torch.sum(u_integral, dim=1, keepdim=True) + g",
         "intvec": "_torch.cat([u - _torch.sum(u_integral, dim=1, keepdim=True), x + t], dim=-1)",
         "intx": "u - _torch.sum(u_integral * x_integral, dim=1, keepdim=True)",
+        "intdx": "u - _torch.sum(_grad(u_integral, x_integral), dim=1, keepdim=True)",
+        "intdt": "u - _grad(u_integral, t)",
         "ritz": "u * u - g", "pen": "(kappa - 3) ** 2", "ut1": "u * t + 1"}
 
 
